@@ -8,6 +8,11 @@ use schemars::JsonSchema;
 use serde::{Deserialize, Serialize};
 use thiserror::Error;
 
+#[cfg(feature = "verif-hooks")]
+use crate::verif_hooks::SMap as HashMap;
+#[cfg(feature = "verif-hooks")]
+use crate::verif_hooks::VecSet as HashSet;
+#[cfg(not(feature = "verif-hooks"))]
 use std::collections::{HashMap, HashSet};
 use std::ops::Range;
 
@@ -279,5 +284,24 @@ mod test {
     assert_eq!(edit.position, 10);
     assert_eq!(edit.deleted_length, 7);
     Ok(())
+  }
+}
+
+/// Verification hooks (cargo feature `verif-hooks`).
+#[cfg(feature = "verif-hooks")]
+#[doc(hidden)]
+pub mod verif_hooks {
+  use super::*;
+  /// object-form fixer (`SerializableFixConfig` has private fields)
+  pub fn fix_config(
+    template: &str,
+    expand_start: Option<Relation>,
+    expand_end: Option<Relation>,
+  ) -> SerializableFixer {
+    SerializableFixer::Config(SerializableFixConfig {
+      template: template.to_string(),
+      expand_end: expand_end.into(),
+      expand_start: expand_start.into(),
+    })
   }
 }
